@@ -52,6 +52,8 @@ func main() {
 		}
 	case "dump":
 		os.Exit(cmdDump(os.Args[2:]))
+	case "callees":
+		os.Exit(cmdCallees(os.Args[2:]))
 	case "census":
 		os.Exit(cmdCensus(os.Args[2:]))
 	default:
